@@ -43,6 +43,9 @@ func (f *Length) Call(s *slip.Scope, args slip.List, depth int) (result slip.Obj
 	switch ta := args[0].(type) {
 	case nil:
 		result = slip.Fixnum(0)
+	case *slip.Vector:
+		// The length of a vector with a fill-pointer is the fill-pointer.
+		result = slip.Fixnum(len(ta.AsList()))
 	case HasLength:
 		result = slip.Fixnum(ta.Length())
 	default:
